@@ -284,7 +284,7 @@ func units(tier string) []engine.Unit {
 	var us []engine.Unit
 	maxCap := 4
 	if tier == "thorough" {
-		maxCap = 7
+		maxCap = 9
 	}
 	for c := 1; c <= maxCap; c++ {
 		c := c
